@@ -10,6 +10,7 @@ import FordModel.Generated.C01
 import FordModel.TypeSpec
 import FordModel.Lemmas.TypeSpec
 import FordModel.Lemmas.TypeSpecChar
+import FordModel.Generated.C01TypeSpec
 namespace Ford.C01
 open Ford.Parse
 
@@ -124,6 +125,28 @@ def sample : Evs :=
 example : sample.wf .file false = true ∧ sample.progs ≤ 1 := by decide
 
 /-! ### equivalent spellings of a declaration's type specification (`parse_type`, character level) -/
+
+/-- The regular expressions `parse_type` uses in the current source are the ones the scanners of
+    `FordModel/TypeSpec.lean` were written for (regenerated from the source on every run). -/
+theorem typespec_regexes_as_modelled :
+    Generated.C01TypeSpec.regexes =
+      [("VAR_TYPE_STRING", "^integer|real|double\\s*precision|character|complex|double\\s*complex|logical|type|class|procedure|enumerator", "IGNORECASE"),
+       ("VARKIND_RE", "\\((.*)\\)|\\*\\s*(\\d+|\\(.*\\))", ""),
+       ("KIND_RE", "kind\\s*=\\s*([^,\\s]+)", "IGNORECASE"),
+       ("LEN_RE", "(?:len\\s*=\\s*(\\w+|\\*|:|\\d+)|(\\d+))", "IGNORECASE"),
+       ("PROTO_RE", "(\\*|\\w+)\\s*(?:\\((.*)\\))?", ""),
+       ("DOUBLE_PREC_RE", "double\\s*precision", "IGNORECASE"),
+       ("DOUBLE_CMPLX_RE", "double\\s*complex", "IGNORECASE"),
+       ("QUOTES_RE", "\\\"([^\\\"]|\\\"\\\")*\\\"|'([^']|'')*'", "IGNORECASE")] := by decide
+
+/-- `get_parens` stops, at nesting level 0, at a letter or at one of the characters listed in the
+    current source - exactly the model's `isStop`. -/
+theorem getParens_stops_as_modelled (c : Char) :
+    TypeSpec.isStop c = (isAlpha c || Generated.C01TypeSpec.stopChars.toList.contains c) := by
+  have : Generated.C01TypeSpec.stopChars.toList = ['_', ':', ',', ' '] := by decide
+  rw [this]
+  simp only [TypeSpec.isStop, List.contains, List.elem, Bool.or_assoc]
+  cases isAlpha c <;> cases c == '_' <;> cases c == ':' <;> cases c == ',' <;> cases c == ' ' <;> rfl
 
 open Ford.TypeSpec in
 /-- **Kind spellings agree (`real*8` ≡ `real(8)` ≡ `real(kind=8)`).**  For every numeric intrinsic
